@@ -412,6 +412,7 @@ def release_levels_loop(E, st, fr, kind, src):
 # ------------------------------------------------------------------ harness
 def base_engine(E, inline_all=True):
     stubs.install_all(E)
+    E.rare_oserrors = True
     E.me = z3.Const('me', stubs.ThreadS)
     # platform selection at import time (checked on the real module by the conformance run):
     # fcntl imports, msvcrt does not -> FileLock is UnixFileLock
